@@ -24,6 +24,9 @@
 #include "options_for_QT.h"
 #include "punctuators.h"
 #include "token_is_within_trailing_return.h"
+#ifdef UNCRUSTIFY_VERIF
+#include "verif_hooks.h"
+#endif
 
 #ifdef WIN32
 #include <algorithm>                   // to get max
@@ -3510,6 +3513,13 @@ const char *decode_IARF(iarf_e av)
 
 static iarf_e do_space_ensured(Chunk *first, Chunk *second, int &min_sp)
 {
+#ifdef UNCRUSTIFY_VERIF
+   {
+      iarf_e verif_raw = do_space(first, second, min_sp);
+      verif_space_raw(static_cast<int>(verif_raw));
+      return(ensure_force_space(first, second, verif_raw));
+   }
+#endif
    return(ensure_force_space(first, second, do_space(first, second, min_sp)));
 }
 
@@ -3696,6 +3706,9 @@ void space_text()
          int min_sp;
          LOG_FMT(LSPACE, "%s(%d): orig line is %zu, orig col is %zu, pc-Text() '%s', type is %s\n",
                  __func__, __LINE__, pc->GetOrigLine(), pc->GetOrigCol(), pc->Text(), get_token_name(pc->GetType()));
+#ifdef UNCRUSTIFY_VERIF
+         verif_space_begin();
+#endif
          iarf_e av = do_space_ensured(pc, next, min_sp);
          min_sp = max(1, min_sp);
 
@@ -3812,6 +3825,9 @@ void space_text()
             }
          }
          next->SetColumn(column);
+#ifdef UNCRUSTIFY_VERIF
+         verif_space_record(pc, next, static_cast<int>(av), pc->TestFlags(PCF_FORCE_SPACE), min_sp, column - prev_column);
+#endif
          LOG_FMT(LSPACE, "%s(%d): orig line is %zu, orig col is %zu, pc-Text() '%s', type is %s\n",
                  __func__, __LINE__, pc->GetOrigLine(), pc->GetOrigCol(), pc->Text(), get_token_name(pc->GetType()));
          LOG_FMT(LSPACE, "%s(%d): ",
